@@ -202,6 +202,14 @@ def build_annotated_module(rng, idx: int, n: int, gated: set = frozenset()):
         if exp and rng.random() < 0.4:
             names = [f"res_{chr(97 + q)}{j}" for q in range(len(exp))]
             doc = '    """Doc.\n\n    Returns\n    -------\n' + "".join(f"    {nm} : object\n        Text {q}.\n" for q, nm in enumerate(names)) + '    """\n'
+        elif len(exp) >= 2 and rng.random() < 0.35:
+            # one entry per result, some with a name and some without: the unnamed ones are result_1, result_2, ... in order
+            given = [f"res_{chr(97 + q)}{j}" if rng.random() < 0.5 else None for q in range(len(exp))]
+            if all(given) or not any(given):
+                given[0], given[-1] = (None, given[-1] or f"res_z{j}") if rng.random() < 0.5 else (given[0] or f"res_a{j}", None)
+            doc = '    """Doc.\n\n    Returns\n    -------\n' + "".join((f"    {nm} : object\n" if nm else "    object\n") + f"        Text {q}.\n" for q, nm in enumerate(given)) + '    """\n'
+            counter = iter(range(1, len(exp) + 1))
+            names = [nm or f"result_{next(counter)}" for nm in given]
         lines.append(f"def {name}() -> {anno_src}:\n{doc}    ...\n\n\n")
         gt[name] = {"kind": "annotated", "expected": exp, "names": names, "anno": anno_src}
     return "".join(lines), gt
